@@ -73,6 +73,16 @@ FORMS = {
     "content_then_name": ('<meta content="text/html; charset=%s" name=generator>', False),
     "content_then_other_equiv": ("<meta content='text/html; charset=%s' http-equiv=X-UA-Compatible>", False),
     "pragma_rev_uc": ('<META CONTENT="text/html; charset=%s" HTTP-EQUIV="CONTENT-TYPE">', True),
+    # near misses of the pragma keyword: the standard wants an exact ASCII case-insensitive match of "Content-Type"
+    "equiv_trailing_space": ('<meta http-equiv="Content-Type " content="text/html; charset=%s">', False),
+    "equiv_leading_space": ("<meta http-equiv=' content-type' content='text/html; charset=%s'>", False),
+    "equiv_trailing_newline": ('<meta content="text/html; charset=%s" http-equiv="Content-Type\n">', False),
+    "equiv_nbsp": ('<meta http-equiv="content-type\x0b" content="text/html; charset=%s">', False),
+    "equiv_underscore": ('<meta http-equiv=content_type content="text/html; charset=%s">', False),
+    "equiv_semicolon": ('<meta http-equiv="Content-Type;" content="text/html; charset=%s">', False),
+    "equiv_prefix": ('<meta http-equiv=content-typ content="text/html; charset=%s">', False),
+    "charset_name_near_miss": ('<meta charsets=%s>', False),
+    "charset_in_name": ('<meta name=charset content=%s>', False),
 }
 # ONE <meta> carrying both a charset attribute (label L1) and a Content-Type pragma (label L2, both valid and different).
 # The HTML standard gives the charset attribute priority in tree construction ("If the element has a charset attribute
